@@ -274,7 +274,87 @@ func (rn *runner) exec(c tcase, seed int64) {
 		rn.extFault(c, env, repo, gitDir, path, abs, b, checkCleaned, checkSmudged)
 	case "progress-env":
 		rn.progressEnv(c, env, repo, path, abs, b, checkCleaned, checkSmudged)
+	case "fsize-limit":
+		rn.fsizeLimit(c, env, repo, path, abs, b, checkCleaned, checkSmudged)
 	}
+}
+
+// fsizeLimit: the filter runs with RLIMIT_FSIZE below (or just above) the size of the content, so that
+// writes to the temporary object file fail with EFBIG part-way ("disk full"). The filter may refuse;
+// a reported success must still satisfy the round-trip oracle. Chunk = limit as a fraction of the size.
+func (rn *runner) fsizeLimit(c tcase, env *sbx.Env, repo, path, abs string, b []byte, checkCleaned func([]byte, string) (ptrspec.Pointer, bool), checkSmudged func([]byte, string)) {
+	run := rn.run
+	limit := int64(len(b))
+	switch c.Chunk {
+	case "limit-94pct":
+		limit = int64(len(b)) * 94 / 100
+	case "limit-half":
+		limit = int64(len(b)) / 2
+	case "limit-4096":
+		limit = 4096
+	case "limit-exact":
+		limit = int64(len(b))
+	case "limit-plus-1":
+		limit = int64(len(b)) + 1
+	}
+	if c.Pk == "/git-add" {
+		os.WriteFile(abs, b, 0o644)
+		// only the filter process is limited: git itself must be able to write its index and objects
+		wrap := filepath.Join(env.Root, "lfs-limited")
+		prog, args := sbx.FsizeWrap(limit, "git-lfs", "filter-process")
+		os.WriteFile(wrap, []byte("#!/bin/sh\nexec "+prog+" "+shellQuote(args)+"\n"), 0o755)
+		env.MustGit(repo, "config", "filter.lfs.process", wrap)
+		a := env.Git(repo, "add", "--", path)
+		run.Count("processes", 1)
+		if a.GoCrash() {
+			rn.viol(c, "go-panic", "git add: "+sbx.Trunc(a.Stderr, 1500), nil)
+			return
+		}
+		if !a.OK() {
+			run.Count("fsize_limit_clean_refused", 1)
+			return
+		}
+		run.Count("fsize_limit_clean_reported_success", 1)
+		ptr := env.PlainGit(repo, "cat-file", "blob", ":"+path).Stdout
+		checkCleaned(ptr, fmt.Sprintf("index blob after git add with the filter's RLIMIT_FSIZE=%d", limit))
+		return
+	}
+	setWt(abs, c.Wt, b)
+	prog, args := sbx.FsizeWrap(limit, "git-lfs", "clean", "--", path)
+	res := env.Run(sbx.RunOpt{Dir: repo, Stdin: bytes.NewReader(b)}, prog, args...)
+	run.Count("processes", 1)
+	if res.GoCrash() {
+		rn.viol(c, "go-panic", "git lfs clean crashed: "+sbx.Trunc(res.Stderr, 1500), nil)
+		return
+	}
+	if !res.OK() {
+		run.Count("fsize_limit_clean_refused", 1)
+		return
+	}
+	run.Count("fsize_limit_clean_reported_success", 1)
+	if _, ok := checkCleaned(res.Stdout, fmt.Sprintf("git lfs clean (exit 0) with RLIMIT_FSIZE=%d", limit)); !ok {
+		return
+	}
+	// smudge under the same limit (the working file is written by the caller, so only temp files count)
+	prog, args = sbx.FsizeWrap(limit, "git-lfs", "smudge", "--", path)
+	sm := env.Run(sbx.RunOpt{Dir: repo, Stdin: bytes.NewReader(res.Stdout)}, prog, args...)
+	if sm.GoCrash() {
+		rn.viol(c, "go-panic", "git lfs smudge crashed: "+sbx.Trunc(sm.Stderr, 1500), nil)
+		return
+	}
+	if !sm.OK() {
+		run.Count("fsize_limit_smudge_refused", 1)
+		return
+	}
+	checkSmudged(sm.Stdout, fmt.Sprintf("git lfs smudge (exit 0) with RLIMIT_FSIZE=%d", limit))
+}
+
+func shellQuote(args []string) string {
+	var out []string
+	for _, a := range args {
+		out = append(out, "'"+strings.ReplaceAll(a, "'", "'\\''")+"'")
+	}
+	return strings.Join(out, " ")
 }
 
 // progressEnv: GIT_LFS_PROGRESS names a file to which the filters append progress lines. Whatever it
@@ -538,7 +618,7 @@ func min(a, b int) int {
 func main() {
 	run := evid.New("C01", "exploration")
 	defer sbx.RemoveBase()
-	run.Rule = "seeded cases over sizes {0,1,2,100,1023,1024,1025,4096,65515,65516,65517,131075,(3MB)} x content {random, text LF/CRLF, zeros, pointer-prefix+payload, pointer look-alike} x mode {one-shot clean/smudge fed through a pipe in write(2) chunk plans whole/1/7/512/1023/1024/1025/4096/random with pauses, filter-process via an independent pkt-line client with packet sizes 1/2/100/8192/65515/65516/random, git add + git checkout (process and one-shot filters), git hash-object --path --stdin (process and one-shot), git merge through git lfs merge-driver with merged pointer shorter/equal/longer than the overwritten one} x working-tree file at the path {absent, same, empty, 10 bytes, 1024 bytes, longer} x {no extension, one reversible extension}; plus a pointer extension whose clean or smudge program fails (partial output + exit 3, no output + exit 1, full output + exit 1, smudge side not inverting the transform) or whose configuration changes between clean and smudge (removed, renamed, other priority) driven one-shot and by git add: the filter may refuse, but a reported success must still satisfy the oracle; the same with GIT_LFS_PROGRESS naming a usable file, a relative path, a path below a missing directory or below a plain file, a directory, /dev/full. Oracle: output parses as canonical pointer (ptrspec), oid/size = SHA-256/length of the stored object, stored object = input (or extension image), smudge output = input; merge result vs git merge-file. Class = all coordinates."
+	run.Rule = "seeded cases over sizes {0,1,2,100,1023,1024,1025,4096,65515,65516,65517,131075,(3MB)} x content {random, text LF/CRLF, zeros, pointer-prefix+payload, pointer look-alike} x mode {one-shot clean/smudge fed through a pipe in write(2) chunk plans whole/1/7/512/1023/1024/1025/4096/random with pauses, filter-process via an independent pkt-line client with packet sizes 1/2/100/8192/65515/65516/random, git add + git checkout (process and one-shot filters), git hash-object --path --stdin (process and one-shot), git merge through git lfs merge-driver with merged pointer shorter/equal/longer than the overwritten one} x working-tree file at the path {absent, same, empty, 10 bytes, 1024 bytes, longer} x {no extension, one reversible extension}; plus a pointer extension whose clean or smudge program fails (partial output + exit 3, no output + exit 1, full output + exit 1, smudge side not inverting the transform) or whose configuration changes between clean and smudge (removed, renamed, other priority) driven one-shot and by git add: the filter may refuse, but a reported success must still satisfy the oracle; the same with GIT_LFS_PROGRESS naming a usable file, a relative path, a path below a missing directory or below a plain file, a directory, /dev/full; and with RLIMIT_FSIZE of the filter process at 4096 bytes / half / 94 % / exactly / one more than the content size (writes to the temporary object file fail with EFBIG). Oracle: output parses as canonical pointer (ptrspec), oid/size = SHA-256/length of the stored object, stored object = input (or extension image), smudge output = input; merge result vs git merge-file. Class = all coordinates."
 	run.Assumptions = []string{"inputs are non-pointers by construction (pointer pass-through is C08)", "pipe chunking with pauses is a legal OS schedule; nothing is assumed about timing", "git merge-file is the authority on the expected three-way merge result"}
 	rn := &runner{run: run}
 	r := rand.New(rand.NewSource(run.Seed))
@@ -630,6 +710,13 @@ func main() {
 						add(tcase{Mode: "progress-env", Size: sz, Content: "random", Wt: wt, Chunk: kind, Pk: via})
 					}
 				}
+			}
+		}
+	}
+	for _, kind := range []string{"limit-94pct", "limit-half", "limit-4096", "limit-exact", "limit-plus-1"} {
+		for _, via := range []string{"/oneshot", "/git-add"} {
+			for _, sz := range []int{5000, 70000, 200000}[:run.N(2, 3)] {
+				add(tcase{Mode: "fsize-limit", Size: sz, Content: "random", Wt: "absent", Chunk: kind, Pk: via})
 			}
 		}
 	}
